@@ -40,6 +40,7 @@ var constructorFns = map[string]bool{
 	"transportoptions.NewTransportOptions":                 true,
 	"tracing.NewSpansIndex":                                true,
 	"registry.NewRegistry":                                 true,
+	"impl.newTimeCounter":                                  true,
 }
 
 type fieldAccess struct {
